@@ -20,7 +20,7 @@ func checkC16(p *Prog, r *Result, tier string) {
 	r.Explanation = "K1 an event key is the shared prefix constant joined with the id printed as zero-padded fixed-width hexadecimal of width 16 (64 bits / 4): byte order of keys equals numeric order of ids, so a prefix scan yields logging order; K2 the reader strips the same prefix constant and parses base 16 into 64 bits; " +
 		"K3 the id of a logged event comes only from the store's NextSequence, which takes it from the bucket's persistent sequence inside an update transaction (never reused, also across restarts: the store never deletes that bucket nor sets its sequence), and the entry is written under that event's key before the commit function is returned; K4 the commit function deletes exactly that event's key; " +
 		"R1 (abstract interpretation, 18 outcome vectors) replaying one event deletes it exactly when decoding succeeded and either Check said not-needed without error or Handle succeeded; Handle runs iff Check asked for it; each step runs at most once; a failure is returned; " +
-		"R2 Recover collects the decodable events in scan order into one slice and replays them in one sequential range over that slice (no goroutine, no reordering), one recover call per element, skipping (not deleting) events without a registered handler; S1 the store scan walks the bucket cursor forwards from the prefix (Seek/Next)."
+		"R2 Recover collects the decodable events in scan order into one slice and replays them in one sequential range over that slice (no goroutine, no reordering), one recover call per element, skipping (not deleting) events without a registered handler; S1 the store scan is ONE forward walk of the bucket cursor, started at the prefix parameter itself (Seek/Next), not a walk that is resumed from a saved key or repeated in a loop."
 	r.NotCovered = "bbolt's own guarantees (atomic update, persistent sequence, cursor order); concurrent loggers interleaving with a running recovery; what the handlers do"
 	r.Assumptions = []string{"A4 bbolt behaves as documented"}
 	r.min("K1", 1)
@@ -529,6 +529,45 @@ func checkC16(p *Prog, r *Result, tier string) {
 			ni, np := fullObjName(fi), fullObjName(fp)
 			if (ni == "go.etcd.io/bbolt.(*Cursor).Seek" || ni == "go.etcd.io/bbolt.(*Cursor).First") && np == "go.etcd.io/bbolt.(*Cursor).Next" {
 				why = ""
+				// one walk: the cursor starts at the prefix parameter itself (a start key that is re-assigned means the walk
+				// is resumed, and a resume that starts AT the last key delivers it twice) and the walk is not repeated in a loop
+				if strings.HasSuffix(ni, "Seek") && len(ic.Args) == 1 {
+					if id, ok := unparen(ic.Args[0]).(*ast.Ident); !ok || SC.paramIndex(enc.objOf(id)) < 0 {
+						why = "the cursor starts at `" + exprStr(ic.Args[0]) + "`, not at the prefix parameter: the scan is resumed from a saved position, and an inclusive resume delivers the entry at every resume point twice (an event replayed twice within one recovery)"
+					}
+				}
+				for f := enc; f != nil && why == ""; f = f.Parent {
+					// the literal holding the walk is called from inside a loop of the enclosing function?
+					if f.Lit == nil || f.Parent == nil {
+						continue
+					}
+					ast.Inspect(f.Parent.Body, func(x ast.Node) bool {
+						var lb *ast.BlockStmt
+						switch l := x.(type) {
+						case *ast.ForStmt:
+							lb = l.Body
+						case *ast.RangeStmt:
+							lb = l.Body
+						}
+						if lb == nil {
+							return true
+						}
+						// a call in the loop body that mentions the variable bound to the walking literal
+						ast.Inspect(lb, func(y ast.Node) bool {
+							c, ok := y.(*ast.CallExpr)
+							if !ok {
+								return true
+							}
+							for _, a := range c.Args {
+								if t, ok2 := p.resolveFuncArg(f.Parent, a); ok2 && t == f {
+									why = "the cursor walk is started again and again inside a loop (" + p.pos(c) + "): the scan is not one walk over a consistent view"
+								}
+							}
+							return true
+						})
+						return true
+					})
+				}
 			} else {
 				why = fmt.Sprintf("cursor loop is %s … %s, not Seek/First … Next: entries are not produced in ascending key order", ni, np)
 			}
